@@ -131,6 +131,30 @@ MUTS={
 """, """            self._value = UpnpStateVariable.UPNP_VALUE_ERROR
             self._updated_at = datetime.now(timezone.utc)
 """)),
+ "C11-A1-yield-before-replay": ("C11", lambda: rep(EH, """            for item in self._backlog[sid]:
+                await self.handle_notify(item[0], item[1])""", """            await asyncio.sleep(0)
+            for item in self._backlog[sid]:
+                await self.handle_notify(item[0], item[1])""")),
+ "C11-H2-coalesced-replay-single-callback": ("C11", lambda: (rep(EH, """        # decode event and send updates to service
+        changes = {}""", """        service.notify_changed_state_variables(self._decode_event(body))
+        return HTTPStatus.OK
+
+    @staticmethod
+    def _decode_event(body: str) -> Dict[str, str]:
+        changes = {}"""), rep(EH, """                changes[name] = value
+
+        # send changes to service
+        service.notify_changed_state_variables(changes)
+
+        return HTTPStatus.OK""", """                changes[name] = value
+        return changes"""), rep(EH, """            for item in self._backlog[sid]:
+                await self.handle_notify(item[0], item[1])
+            del self._backlog[sid]""", """            merged: Dict[str, str] = {}
+            for item in self._backlog.pop(sid):
+                for name, value in self._decode_event(item[1]).items():
+                    merged.pop(name, None)
+                    merged[name] = value
+            service.notify_changed_state_variables(merged)"""))),
  "C11-M1-replay-newest-only": ("C11", lambda: rep(EH, "for item in self._backlog[sid]:", "for item in self._backlog[sid][-1:]:")),
  "C11-M2-delete-before-replay": ("C11", lambda: rep(EH, """            for item in self._backlog[sid]:
                 await self.handle_notify(item[0], item[1])
